@@ -55,10 +55,38 @@ def cases(tier, seed):
     for i in range(nm):
         out.append({"id": "ms1-%d" % i, "kind": "ms1", "m": _gen_m(rng, i % 3), "x": float(loguniform(rng, 0.1, 15) if tier != "quick" else loguniform(rng, 0.1, 6)),
                     "nmed": float(rng.uniform(1.0, 1.6)), "wl": float(rng.uniform(0.4, 0.8)), "pol_angle": float(rng.uniform(0, 6.28)), "cost": 40, "timeout": 900})
+    # one-sphere clusters where x and m*x are both close to zeros of the same spherical Bessel function: a low-order term of
+    # the series vanishes by accident there (the series must not be taken as converged at that order)
+    for i, (xx, mm) in enumerate([(5.7634, 1.57805), (6.98793, 1.49073), (6.98793, 1.96024), (9.09501, 1.35491), (10.4171, 1.31495),
+                                  (5.7634, 1.578047), (5.76345, 1.57803)]):
+        out.append({"id": "ms1-zero-%d" % i, "kind": "ms1", "m": [mm, 0.0], "x": xx, "nmed": 1.33, "wl": 0.66, "pol_angle": 0.3 * i, "cost": 20, "timeout": 900})
+    # one-sphere clusters whose sphere is larger than the expansion order compiled into the multi-sphere code (32) can carry
+    for i, xx in enumerate([30.0, 40.0, 60.0] if tier == "quick" else [26.0, 30.0, 35.0, 40.0, 50.0, 60.0, 80.0, 100.0]):
+        out.append({"id": "ms1-large-%d" % i, "kind": "ms1", "m": [1.2, 0.0], "x": xx, "nmed": 1.0, "wl": 0.6, "pol_angle": 0.4, "cost": 60, "timeout": 1500})
+    # layered spheres with a strongly absorbing (metallic) shell, up to size parameters of several hundred
+    for i, kR in enumerate([20.0, 100.0, 190.0, 200.0, 261.0, 400.0]):
+        out.append({"id": "lay-metal-%d" % i, "kind": "metal_shell", "kR": kR, "shell": [0.16, 4.9], "core": 1.45, "frac": [0.9, 0.8, 0.5][i % 3], "cost": 3})
     return out
 
 
 # ------------------------------------------------------------------ child
+
+def _run_metal_shell(case):
+    """silica core in a thick gold-like shell: finite, energy-conserving, and (the shell being opaque) equal to the solid metal sphere"""
+    from holopy.scattering import Sphere, Mie, calc_cross_sections
+    nmed, wl = 1.33, 0.8
+    k = 2 * math.pi * nmed / wl
+    R = case["kR"] / k
+    nsh = complex(*case["shell"])
+    a = calc_cross_sections(Sphere(n=(case["core"], nsh), r=(case["frac"] * R, R)), nmed, wl, (1, 0), theory=Mie()).values
+    b = calc_cross_sections(Sphere(n=nsh, r=R), nmed, wl, (1, 0), theory=Mie()).values
+    flags = {"finite": bool(np.all(np.isfinite(a))), "absorption_nonnegative": bool(np.all(np.isfinite(a)) and a[1] >= -1e-10 * a[2])}
+    resid = {}
+    opaque = (1 - case["frac"]) * case["kR"] * nsh.imag / nmed > 40       # exp(-2 * 40) : the core is invisible
+    if opaque and flags["finite"]:
+        resid["opaque_shell_equals_solid"] = fnum(float(np.abs(a[:3] - b[:3]).max() / b[2]))
+    return {"resid": resid, "flags": flags, "cond": 0.0, "x": case["kR"], "cext": float(b[2])}
+
 
 def _relations(s, nmed, wl, pol, theory, xmax):
     """optical theorem + quadrature relations from separately executed calc_scat_matrix calls"""
@@ -175,7 +203,7 @@ def _run_ms1(case):
 # ------------------------------------------------------------------ oracle
 
 TOL = {"optical_theorem": 1e-10, "cscat_integral": 1e-7, "g_integral": 1e-8, "ref_cscat": 1e-10, "ref_cext": 1e-10, "ref_g": 1e-10, "ref_cabs": 1e-10,
-       "rayleigh_over_x2": 3.0, "rayleigh_abs_over_x2": 5.0, "rayleigh_g_over_x2": 1.0, "ms1_xsec": 1e-8, "ms1_g": 1e-8}
+       "rayleigh_over_x2": 3.0, "rayleigh_abs_over_x2": 5.0, "rayleigh_g_over_x2": 1.0, "ms1_xsec": 1e-8, "ms1_g": 1e-8, "opaque_shell_equals_solid": 1e-9}
 
 
 def judge(case, obs):
@@ -187,7 +215,9 @@ def judge(case, obs):
         if base.startswith("ref_") and obs["cond"] > t / 10:
             continue
         if not v <= t:
-            out.append({"mech": "%s.%s" % (case["kind"], base), "detail": "%s=%.3e > %.1e (x=%.3g, cond %.1e); %s" % (k, v, t, obs["x"], obs["cond"], desc)})
+            # a one-sphere cluster larger than the multi-sphere code's compiled expansion order can carry is a finding of its own
+            regime = ".sphere_beyond_order_32" if case["kind"] == "ms1" and obs["x"] > 25 else ""
+            out.append({"mech": "%s.%s%s" % (case["kind"], base, regime), "detail": "%s=%.3e > %.1e (x=%.3g, cond %.1e); %s" % (k, v, t, obs["x"], obs["cond"], desc)})
     for k, v in obs["flags"].items():
         if not v:
             out.append({"mech": "%s.%s" % (case["kind"], k), "detail": "%s" % desc})
